@@ -136,6 +136,32 @@ def main():
                                       data={"V": m.V, "E": m.E, "a": a, "b": b, "points": pts})
                     elif top > errs[0] / 30 and top > 1e-12:
                         ctx.violation("green:no_convergence", "%s: %s" % (cid, ["%.2e" % e for e in errs]), cid)
+                # ---- the same ladder driven through the GLOBAL parameter object and through ONE reused explicit object whose
+                # order is changed between constructions (a convergence sweep as a user would write it): same values as above
+                if ui == 0 and ctx.worker != "san":
+                    GP = api.GLOBAL_PARAMETERS
+                    saved_r = GP.quadrature.regular
+                    reused = api.DefaultParameters()
+                    try:
+                        for mode in ("global", "reused_object"):
+                            errs2 = []
+                            for r in ladder:
+                                if mode == "global":
+                                    GP.quadrature.regular = r
+                                    par = None
+                                else:
+                                    reused.quadrature.regular = r
+                                    par = reused
+                                sl = O.potential(api, "laplace", "single_layer", dp0, pts, parameters=par).evaluate(gf_psi)
+                                dl = O.potential(api, "laplace", "double_layer", p1, pts, parameters=par).evaluate(gf_g)
+                                errs2.append(float(np.abs(np.asarray(sl - dl).ravel() - uex).max() / uscale))
+                            ctx.count("ladders_through_%s_parameters" % mode)
+                            if not all(abs(e2 - e1) <= 1e-12 + 1e-6 * e1 for e1, e2 in zip(errs, errs2)):
+                                ctx.violation("green:order_not_honoured:%s_parameters" % mode,
+                                              "%s: errors along the ladder %s with fresh explicit parameter objects %s, but %s when the order is set through %s"
+                                              % (cid, ladder, ["%.2e" % e for e in errs], ["%.2e" % e for e in errs2], mode), cid)
+                    finally:
+                        GP.quadrature.regular = saved_r
                 # ---- segment-wise pieces (same density, sum of pieces) at order 8
                 par = O.params(api, 8, 4)
                 whole = np.asarray(O.potential(api, "laplace", "single_layer", dp0, pts, parameters=par).evaluate(gf_psi)
